@@ -663,6 +663,14 @@ func badDigest(rng *rand.Rand, d *pb.Digest, kind string) *pb.Digest {
 	return &pb.Digest{Hash: h, SizeBytes: n}
 }
 
+func inlineBytes(rng *rand.Rand) []byte {
+	b := make([]byte, 1+rng.IntN(2000))
+	for i := range b {
+		b[i] = byte('a' + rng.IntN(26))
+	}
+	return b
+}
+
 // applyIll makes exactly one field of the (well-formed) message ill formed.
 func applyIll(rng *rand.Rand, info *msgInfo, k illKind) {
 	m := info.m
@@ -710,6 +718,12 @@ func applyIll(rng *rand.Rand, info *msgInfo, k illKind) {
 			f.Digest = nil
 		} else {
 			f.Digest = badDigest(rng, f.Digest, k.kind)
+			if k.kind != "neg-size" && rng.IntN(2) == 0 {
+				// the file's bytes are carried inline and the (malformed) digest states their length: the digest is
+				// ill formed all the same
+				f.Contents = inlineBytes(rng)
+				f.Digest.SizeBytes = int64(len(f.Contents))
+			}
 		}
 	case k.site == "output_directories.tree_digest":
 		d := m.OutputDirectories[rng.IntN(len(m.OutputDirectories))]
@@ -721,9 +735,17 @@ func applyIll(rng *rand.Rand, info *msgInfo, k illKind) {
 	case k.site == "stdout_digest":
 		m.StdoutDigest = badDigest(rng, m.StdoutDigest, k.kind)
 		m.StdoutRaw = nil
+		if k.kind != "neg-size" && rng.IntN(2) == 0 {
+			m.StdoutRaw = inlineBytes(rng)
+			m.StdoutDigest.SizeBytes = int64(len(m.StdoutRaw))
+		}
 	case k.site == "stderr_digest":
 		m.StderrDigest = badDigest(rng, m.StderrDigest, k.kind)
 		m.StderrRaw = nil
+		if k.kind != "neg-size" && rng.IntN(2) == 0 {
+			m.StderrRaw = inlineBytes(rng)
+			m.StderrDigest.SizeBytes = int64(len(m.StderrRaw))
+		}
 	case k.site == "output_files.path":
 		f := m.OutputFiles[rng.IntN(len(m.OutputFiles))]
 		if k.kind == "empty" {
